@@ -131,6 +131,19 @@ CLAIMED = {
              'rebuilds the same lists.',
         note=STATIC_NOTE + 'Bounded in the number of operations (stated); np.argmax modelled as first-True-or-0.',
         ref='DESIGN.md section 4 C17'),
+    'C11': dict(
+        technique='abstract interpretation of the real constructors, to_dict, json_to_pmutt/type_to_class/from_dict code '
+                  'with symbolic attribute values; structural model of json encode/decode; attribute-wise comparison',
+        text='For each of 35 instances covering every serialisable class named by the property (nested: species with '
+             'models, references and misc models inside reactions inside reaction sets) decides that encoding succeeds, '
+             'the decoded value is an object of the same class (registry entry, class string), every attribute set by the '
+             'constructor equals the decoded one for all attribute values at once, the dictionary handed to the decoder '
+             'is unchanged, and a second encode/decode cycle reproduces the same dictionary. Each difference is reported '
+             'on the innermost class and attribute.',
+        note=STATIC_NOTE + 'json.dumps/loads modelled structurally (objects through pmuttEncoder.default -> to_dict, '
+             'tuples become lists, ndarrays not encodable); list versus ndarray values are not distinguished when '
+             'comparing; NumPy scalar types and float formatting are not decided.',
+        ref='DESIGN.md section 4 C11'),
     'C12': dict(
         technique='table analysis: constant folding of literal tables + abstract interpretation of the '
                   'lookup functions (ast, exact Fractions)',
